@@ -580,6 +580,12 @@ func evalTextX(text string, wantDetail bool) (t textOut) {
 		return t
 	}
 	t.ref = ref
+	if err != nil && li.prefixNot {
+		// the extension spelling is not documented: its acceptance is not asserted
+		t.ref = nil
+		t.class = "text:prefix-not-rejected(not asserted)"
+		return t
+	}
 	if err != nil {
 		t.clause, t.disc = "grammar-accepted", "error-instead-of-ok"
 		t.tag = t.clause + "|" + t.disc
@@ -599,19 +605,53 @@ func evalTextX(text string, wantDetail bool) (t textOut) {
 		t.class = "text:tokens-changed"
 		return t
 	}
+	// same meaning (text -> object): the parsed query matches the same witness records as the
+	// API-built query the text denotes
+	if rec, m1, m2 := compareRefMatches(ref, q); rec != nil {
+		t.clause, t.disc = "text-same-matches", "different-matches"
+		t.tag = t.clause + "|" + t.disc
+		if wantDetail {
+			t.detail = fmt.Sprintf("%q denotes %s, but ParseQuery returns %s: record %s matches the denoted query=%v, the parsed query=%v", text, ref.goExpr(), dumpTree(query.VerifTree(q)), rec, m1, m2)
+		}
+		t.class = "text:meaning-changed"
+		return t
+	}
 	t.class = "text:both-accept"
 	return t
 }
 
-func compareRefTokens(ref *QSpec, q *query.Query) (string, string) {
+func buildRef(ref *QSpec) *query.Query {
 	var rq *query.Query
 	if p, _ := vlib.Catch(func() { rq = ref.build() }); p != nil {
-		return "", ""
+		return nil
 	}
 	if _, err := rq.Check(); err != nil {
+		return nil
+	}
+	return rq
+}
+
+func compareRefTokens(ref *QSpec, q *query.Query) (string, string) {
+	rq := buildRef(ref)
+	if rq == nil {
 		return "", ""
 	}
 	return compareTokens(rq, q)
+}
+
+func compareRefMatches(ref *QSpec, q *query.Query) (*rec, bool, bool) {
+	rq := buildRef(ref)
+	if rq == nil {
+		return nil, false, false
+	}
+	for _, r := range witnessRecords(query.VerifTree(rq), query.VerifTree(q)) {
+		atomic.AddInt64(&implCalls, 2)
+		m1, m2 := rq.MatchesAccessor(r), q.MatchesAccessor(r)
+		if m1 != m2 {
+			return r, m1, m2
+		}
+	}
+	return nil, false, false
 }
 
 // shrinkText removes blank-separated spans, then single characters, while the same failure persists.
@@ -668,6 +708,9 @@ func lexFeatures(li lexInfo) []string {
 	if li.tightParens {
 		f = append(f, "no-blank-outside-parenthesis")
 	}
+	if li.prefixNot {
+		f = append(f, "prefix-not-on-condition")
+	}
 	return f
 }
 
@@ -686,7 +729,7 @@ func joinFeatures(fs []string) string {
 }
 
 var allOpts = []ropt{{}, {Alias: true, Paren: 1}, {Quote: 1, Paren: 2}, {Quote: 2, Sep: 1, RootParens: true}, {Alias: true, Quote: 1, Sep: 2, Paren: 0}, {Quote: 2, Paren: 2, Alias: true},
-	{Paren: 2, RootParens: true}, {Quote: 1, Paren: 1, Sep: 1}}
+	{Paren: 2, RootParens: true}, {Quote: 1, Paren: 1, Sep: 1}, {PrefixNot: true}, {PrefixNot: true, Alias: true, Paren: 2}}
 
 func variantFails(o ropt) failFn {
 	return func(c *QSpec) (string, rtOut) {
@@ -724,6 +767,11 @@ func optSimplifications(o ropt) []ropt {
 	if o.RootParens {
 		x := o
 		x.RootParens = false
+		out = append(out, x)
+	}
+	if o.PrefixNot {
+		x := o
+		x.PrefixNot = false
 		out = append(out, x)
 	}
 	return out
@@ -1061,9 +1109,10 @@ func main() {
 			"Each object: Check, Print, ParseQuery, Print, MatchesAccessor on derived witness records (cross product of boundary field values per key), token comparison through the private tree. " +
 			"Each string: ParseQuery (panic/termination/checked) versus a hand-written recogniser of the README grammar; accepted strings are round-tripped as objects. " +
 			"non-trivial = distinct objects whose witness records make the query both match and not match, plus distinct strings accepted by the parser")
-		c.Assume("documented grammar = README.md of database/query + clause layout 'query <prefix> [where ..] [orderby key] [limit n] [offset n]' in this order; other clause orders, 'not' in front of a plain condition, " +
+		c.Assume("documented grammar = README.md of database/query + clause layout 'query <prefix> [where ..] [orderby key] [limit n] [offset n]' in this order; other clause orders, " +
 			"escapes of non-control characters, empty groups, limit 0, single-element 'in' lists, NaN/Inf spellings and control words used as keys are left open by the documentation: the recogniser does not accept them, so nothing is asserted about them")
-		c.Assume("for strings of the documented grammar in spellings Print never produces (aliases, tight parentheses, backslash escapes) only acceptance and exact key/prefix/value tokens are asserted, as the statement says; a meaning comparison is recorded as information only")
+		c.Assume("for strings of the documented grammar in spellings Print never produces (aliases, tight parentheses, backslash escapes) acceptance, exact key/prefix/value tokens and the meaning (same matches as the API-built query that the README reading of the text denotes: and/or/not, operators of the table) are asserted")
+		c.Assume("extension beyond the README: a prefix 'not' in front of a plain condition ('not a exists and b exists'), which the parser accepts although it is documented for groups only, is read as negating that one condition, like 'not (a exists)'; its acceptance is not asserted, only its meaning when it is accepted")
 		c.Assume("witness records are flat field maps behind the accessor interface (numbers answer GetInt and GetFloat as JSON records do); gjson path syntax inside keys is not interpreted")
 		c.Assume("tokens that are not valid UTF-8 are outside the quantifier: objects the parser produces with such tokens are not round-tripped")
 		if c.Replay != "" {
@@ -1076,7 +1125,11 @@ func main() {
 			defer pprof.StopCPUProfile()
 		}
 		debug.SetGCPercent(400)
-		c.SetBudget(vlib.Pick(c, 150*time.Second, 25*time.Minute))
+		budget := vlib.Pick(c, 150*time.Second, 25*time.Minute)
+		if v, err := time.ParseDuration(os.Getenv("C11_BUDGET")); err == nil && v > 0 {
+			budget = v // for runs on an overloaded machine
+		}
+		c.SetBudget(budget)
 		startWatchdog(c)
 		run(c)
 		resolvePending(c)
